@@ -1,5 +1,10 @@
 package json
 
+import (
+	"math/big"
+	"math/bits"
+)
+
 // H14-enc: for every subset of the public AppendFlags: error exactly when the default flags fail; EscapeHTML off ==
 // encoding/json with SetEscapeHTML(false); SortMapKeys only permutes members (checked against both member orders for
 // the catalogue's maps of at most two entries); TrustRawMessage changes nothing for valid raw messages.
@@ -39,3 +44,166 @@ func vfH_c14_enc() {
 	}
 	vfCover("done")
 }
+
+func parseFlagsOf(f int) ParseFlags {
+	var flags ParseFlags
+	if f&1 != 0 {
+		flags |= DontCopyString
+	}
+	if f&2 != 0 {
+		flags |= DontCopyNumber
+	}
+	if f&4 != 0 {
+		flags |= DontCopyRawMessage
+	}
+	if f&8 != 0 {
+		flags |= DontMatchCaseInsensitiveStructFields
+	}
+	return flags
+}
+
+// H14-dec: parsing the default output with the subset vfFlags of DontCopyString/DontCopyNumber/DontCopyRawMessage/
+// DontMatchCaseInsensitiveStructFields restores the value (observed through the canonical re-encoding), exactly as the
+// flag-free parse does. The input is a private copy, so zero-copy results legitimately alias it and nothing else.
+func vfH_c14_dec() {
+	sh := jshapes[vfShape]
+	v := sh.mk()
+	doc, ok := sh.want(v, true)
+	if !ok {
+		return
+	}
+	in := append([]byte(nil), doc...)
+	p := sh.newp()
+	rem, err := Parse(in, p, parseFlagsOf(vfFlags))
+	vfAssert(err == nil, "default-output-accepted-under-flags")
+	if err != nil {
+		return
+	}
+	vfAssert(len(rem) == 0, "no-remainder")
+	doc2, err2 := Marshal(p)
+	vfAssert(err2 == nil, "re-marshal-ok")
+	if err2 == nil {
+		vfAssert(string(doc2) == string(doc), "flags-restore-the-original-value")
+	}
+	for i := range doc {
+		vfAssert(in[i] == doc[i], "input-not-modified")
+	}
+	vfCover("done")
+}
+
+// H14-num: UseNumber/UseBigInt/UseInt64/UseUint64 (all 16 subsets, vfFlags) select only the dynamic type of a number
+// stored in an interface, in the documented precedence (UseUint64 > UseInt64 > UseBigInt > UseNumber > float64, the
+// integer kinds only for integer literals that are in range), never its value.
+//   vfMode 0: every valid JSON number literal of vfLen bytes
+//   vfMode 1..6: 19/20-digit literals around the int64 and uint64 limits, the last two digits free
+func vfH_c14_num() {
+	var lit []byte
+	switch vfMode {
+	case 0:
+		lit = vfBytes(vfLen)
+		vfAssume(refIsNumber(string(lit)))
+	default:
+		tmpl := [...]string{"", "9223372036854775807", "-9223372036854775808", "18446744073709551615", "-18446744073709551615", "09223372036854775807"[1:], "-9223372036854775808"}[vfMode]
+		lit = []byte(tmpl)
+		n := len(lit)
+		d1, d2 := vfByte(), vfByte()
+		vfAssume(d1 >= '0' && d1 <= '9' && d2 >= '0' && d2 <= '9')
+		lit[n-1], lit[n-2] = d1, d2
+		if vfMode >= 5 { // one digit more or fewer than the limit
+			if vfBool() {
+				lit = append(lit, '0')
+			} else {
+				lit = lit[:n-1]
+			}
+		}
+	}
+	var flags ParseFlags
+	if vfFlags&1 != 0 {
+		flags |= UseNumber
+	}
+	if vfFlags&2 != 0 {
+		flags |= UseBigInt
+	}
+	if vfFlags&4 != 0 {
+		flags |= UseInt64
+	}
+	if vfFlags&8 != 0 {
+		flags |= UseUint64
+	}
+	isInt := true
+	for _, c := range lit {
+		if c == '.' || c == 'e' || c == 'E' {
+			isInt = false
+		}
+	}
+	neg := lit[0] == '-'
+	digits := lit
+	if neg {
+		digits = lit[1:]
+	}
+	fitsU := isInt && !neg && refFits(digits, "18446744073709551615")
+	fitsI := isInt && ((neg && refFits(digits, "9223372036854775808")) || (!neg && refFits(digits, "9223372036854775807")))
+
+	var x any
+	in := append([]byte(nil), lit...)
+	rem, err := Parse(in, &x, flags)
+	vfAssert(err == nil && len(rem) == 0, "number-accepted")
+	if err != nil {
+		return
+	}
+	switch y := x.(type) {
+	case uint64:
+		vfCover("uint64")
+		vfAssert(flags&UseUint64 != 0 && fitsU, "uint64-only-when-requested-and-in-range")
+		if fitsU {
+			vfAssert(y == refValue64(digits), "uint64-value")
+		}
+	case int64:
+		vfCover("int64")
+		vfAssert(flags&UseInt64 != 0 && fitsI && !(flags&UseUint64 != 0 && fitsU), "int64-only-when-requested,-in-range-and-not-preempted-by-uint64")
+		if fitsI {
+			u := refValue64(digits)
+			if neg {
+				u = -u
+			}
+			vfAssert(uint64(y) == u, "int64-value")
+		}
+	case Number:
+		vfCover("Number")
+		vfAssert(flags&UseNumber != 0, "Number-only-when-requested")
+		vfAssert(!(flags&UseUint64 != 0 && fitsU) && !(flags&UseInt64 != 0 && fitsI) && !(flags&UseBigInt != 0 && isInt), "Number-has-lowest-precedence")
+		vfAssert(string(y) == string(lit), "Number-text")
+	case float64:
+		vfCover("float64")
+		vfAssert(!(flags&UseUint64 != 0 && fitsU) && !(flags&UseInt64 != 0 && fitsI) && !(flags&UseBigInt != 0 && isInt) && flags&UseNumber == 0, "float64-only-as-the-fallback")
+	default:
+		// *big.Int (math/big is executed, its value is compared through the decimal text)
+		vfCover("big")
+		vfAssert(flags&UseBigInt != 0 && isInt, "big.Int-only-when-requested-for-integers")
+		vfAssert(!(flags&UseUint64 != 0 && fitsU) && !(flags&UseInt64 != 0 && fitsI), "big.Int-below-the-64-bit-kinds")
+		b, isBig := x.(*big.Int)
+		vfAssert(isBig, "dynamic-type-is-one-of-the-documented-five")
+		if isBig && isInt {
+			// reference value: 128-bit Horner evaluation of the digits
+			var hi, lo uint64
+			for _, c := range digits {
+				h1, l1 := bits.Mul64(lo, 10)
+				hi = hi*10 + h1
+				var carry uint64
+				lo, carry = bits.Add64(l1, uint64(c-'0'), 0)
+				hi += carry
+			}
+			w := b.Bits()
+			var gotLo, gotHi uint64
+			if len(w) > 0 {
+				gotLo = uint64(w[0])
+			}
+			if len(w) > 1 {
+				gotHi = uint64(w[1])
+			}
+			vfAssert(len(w) <= 2 && gotLo == lo && gotHi == hi, "big.Int-magnitude")
+			vfAssert((b.Sign() < 0) == (neg && (hi|lo) != 0), "big.Int-sign")
+		}
+	}
+}
+
